@@ -2,12 +2,17 @@
    Kernel-checked on every run, for all inputs at once: the skeleton of the 36 parse functions
    regenerated from src/parser.rs implements exactly the productions regenerated from grammar.y
    (ordered alternatives, consumed tokens, sub-parses), every committed sub-parse is an ordered
-   choice, and the tree builder covers every sequence function. Accept/reject against an independent
-   chart recogniser of grammar.y, tree shape, left association and names are decided by running the
-   extracted parser model and the recogniser against the implementation (correspondence). *)
+   choice, and the tree builder covers every sequence function; and, by induction over the
+   interpreter of that skeleton and its memo table (Proofs/SoundProofs.v), EVERY token list that the
+   parser model accepts is a sentence of the context-free grammar regenerated from grammar.y
+   (C07_accepted_implies_sentence: no input outside the grammar is accepted, error recovery
+   included). The converse (every sentence is accepted - ordered choice against a context-free
+   grammar), tree shape, left association and names are decided by running the extracted parser
+   model, an independent chart recogniser of grammar.y and an independent chain reader against the
+   implementation (correspondence). *)
 From Coq Require Import List ZArith NArith Bool.
 Import ListNotations.
-Require Import Gram.Model.Token Gram.Model.Grammar Gram.Gen.ParserSkeleton Gram.Gen.GrammarY Gram.Model.Parser Gram.Proofs.ParserProofs.
+Require Import Gram.Model.Token Gram.Model.Grammar Gram.Gen.ParserSkeleton Gram.Gen.GrammarY Gram.Model.Parser Gram.Proofs.ParserProofs Gram.Proofs.SoundProofs.
 
 Theorem C07_skeleton_matches_grammar : forallb compat_nt all_nts = true.
 Proof. exact skeleton_matches_grammar. Qed.
@@ -35,3 +40,21 @@ Theorem C07_fast_tables_agree :
 Proof. exact fast_tables_agree. Qed.
 Check C07_fast_tables_agree : _ = true.
 Print Assumptions C07_fast_tables_agree.
+
+Theorem C07_accepted_implies_sentence : forall toks memo t,
+  fst (fst (parse_stage1 toks memo)) = S1Tree t -> derives Term (map pk toks).
+Proof. exact parse_sound. Qed.
+Check C07_accepted_implies_sentence : forall toks memo t,
+  fst (fst (parse_stage1 toks memo)) = S1Tree t -> derives Term (map pk toks).
+Print Assumptions C07_accepted_implies_sentence.
+
+Theorem C07_skeleton_productions : forallb sound_table all_nts = true.
+Proof. exact skeleton_productions. Qed.
+Check C07_skeleton_productions : forallb sound_table all_nts = true.
+Print Assumptions C07_skeleton_productions.
+
+(* non-vacuity: `x = 1 ; x` is accepted, and therefore derivable *)
+Example C07_sentence_example :
+  let tk k := {| pk := k; ps := 0; pe := 0; pname := [120%N]; pz := 1 |} in
+  exists t, fst (fst (parse_stage1 [tk KIdentifier; tk KEquals; tk KIntegerLiteral; tk KSemicolon; tk KIdentifier] true)) = S1Tree t.
+Proof. eexists. vm_compute. reflexivity. Qed.
